@@ -1,4 +1,1256 @@
+//! C06 — replicas converge: once updates are delivered, all replicas answer reads alike;
+//! what a replica serves equals what its replication state says.
+//!
+//! Checks (DESIGN.md §3 C06, notes/C06.md):
+//!   actor_programs  2–4 (thorough: 5) production `ReplicatedShardActor`s, a generated program
+//!                   of client commands at chosen nodes interleaved with harness-owned network
+//!                   actions on the multiset of in-flight deltas and clock ticks; verdicts at
+//!                   Q1 (every delta delivered to every other node, only when nothing was
+//!                   lost for good), Q2 (after two all-pairs rounds of full-state exchange
+//!                   from `get_snapshot()`), D (after eviction beyond every TTL used).
+//!   sim_programs    `MultiNodeSimulation` (in-tree simulator glue) with generated SET/DEL
+//!                   programs, partitions, loss, healing, then full-state exchange.
+
+use proptest::prelude::*;
+use redis_sim::production::{ReplicatedShardActor, ReplicatedShardHandle};
+use redis_sim::replication::{
+    ConsistencyLevel, CrdtValue, LamportClock, ReplicaId, ReplicatedValue, ReplicationDelta,
+};
+use redis_sim::simulator::multi_node::MultiNodeSimulation;
+use redis_sim::simulator::VirtualTime;
+use serde::{Deserialize, Serialize};
+use serde_json::json;
+use std::collections::{BTreeMap, BTreeSet, HashMap};
+use vcore::resp::{parse_zc, Reply};
+use vcore::{CaseCtx, Level, Session};
+
+const KF1: &str = "KF-C06-01"; // conditional SET that was a no-op still records a write
+const KF2: &str = "KF-C06-02"; // a command that failed (error reply) still records a write
+const KF3: &str = "KF-C06-03"; // DEL of a hash key: no tombstone
+const KF4: &str = "KF-C06-04"; // expiry_ms not versioned with the value (assigned locally, merged Some-beats-None/max)
+const KF5: &str = "KF-C06-05"; // relative TTL re-armed on every merge
+const KF6: &str = "KF-C06-06"; // newer remote hash cannot replace a local string in the executor
+const KF8: &str = "KF-C06-08"; // string<->hash type change: mismatch merge drops one side wholesale, older hash fields survive depending on order
+const KF7: &str = "KF-C06-07"; // remote apply truncates expiry_ms to whole seconds (PX < 1000 -> SETEX 0 -> rejected)
+
+type Stamp = (u64, u64);
+fn stamp(c: &LamportClock) -> Stamp {
+    (c.time, c.replica_id.0)
+}
+
+const KEYS: [&str; 4] = ["ka", "kb", "kc", "kd"];
+const FIELDS: [&str; 3] = ["f1", "f2", "f3"];
+const VALUES: [&str; 8] = ["v1", "v2", "v3", "abc", "5", "10", "-3", ""];
+
+// ---------------------------------------------------------------------------------------
+// case
+// ---------------------------------------------------------------------------------------
+
+#[derive(Clone, Debug, Serialize, Deserialize)]
+enum Step {
+    /// client command at a node
+    Cmd { node: u8, argv: Vec<String> },
+    /// deliver one in-flight delta (index as a fraction of the in-flight list: any order)
+    Deliver { idx: u16 },
+    /// put a second copy of an in-flight delta in flight
+    Dup { idx: u16 },
+    /// lose an in-flight delta
+    Drop { idx: u16 },
+    /// cut the link a-b: deltas delivered across it are lost
+    Partition { a: u8, b: u8 },
+    /// heal all links
+    Heal,
+    /// advance the clock of all nodes (each gets evict_expired(now))
+    Tick { ms: u32 },
+}
+
+#[derive(Clone, Debug, Serialize, Deserialize)]
+struct Case {
+    nodes: u8,
+    steps: Vec<Step>,
+    /// loss followed by redelivery: lost deltas are sent again before Q1
+    redeliver_lost: bool,
+}
+
+/// Generator profiles (the command grammar is the same, the pools differ):
+///   0 free    every command on every key with every value: type flips, failing commands
+///   1 typed   string commands on ka/kb, hash commands on kc/kd, numeric values, no invalid
+///             expiry: commands rarely fail, but NX/XX, TTLs, DEL of hash keys remain
+///   2 plain   typed, and no SET options, no DEL of hash keys, no GETSET
+fn key_of(pool: &'static [usize]) -> BoxedStrategy<String> {
+    (0usize..pool.len() * 2).prop_map(move |i| KEYS[pool[i % pool.len().max(1)].min(3)].to_string()).boxed()
+}
+fn str_key(profile: u8) -> BoxedStrategy<String> {
+    if profile == 0 { key_of(&[0, 0, 1, 2, 3]) } else { key_of(&[0, 0, 1]) }
+}
+fn hash_key(profile: u8) -> BoxedStrategy<String> {
+    if profile == 0 { key_of(&[0, 0, 1, 2, 3]) } else { key_of(&[2, 2, 3]) }
+}
+fn any_key(profile: u8) -> BoxedStrategy<String> {
+    if profile == 2 { key_of(&[0, 0, 1]) } else { key_of(&[0, 0, 1, 2, 3]) }
+}
+fn val_s(profile: u8) -> BoxedStrategy<String> {
+    if profile == 0 {
+        (0usize..VALUES.len()).prop_map(|i| VALUES[i].to_string()).boxed()
+    } else {
+        prop_oneof![Just("5"), Just("10"), Just("-3"), Just("0"), Just("7")].prop_map(|s| s.to_string()).boxed()
+    }
+}
+fn field_s() -> impl Strategy<Value = String> {
+    (0usize..FIELDS.len()).prop_map(|i| FIELDS[i].to_string())
+}
+fn sv(parts: &[&str]) -> Vec<String> {
+    parts.iter().map(|s| s.to_string()).collect()
+}
+
+/// One client command (argv).
+fn cmd_strategy(profile: u8) -> BoxedStrategy<Vec<String>> {
+    let w_opts = if profile == 2 { 0 } else { 6 };
+    let w_invalid = if profile == 0 { 1 } else { 0 };
+    let w_getset = if profile == 2 { 0 } else { 2 };
+    let w_big = if profile == 0 { 1 } else { 0 };
+    let set_opts = (
+        prop_oneof![6 => Just(""), 2 => Just("NX"), 2 => Just("XX")],
+        prop_oneof![
+            6 => Just(Vec::<String>::new()),
+            2 => (1u32..20).prop_map(|s| vec!["EX".to_string(), s.to_string()]),
+            2 => (100u32..15000).prop_map(|s| vec!["PX".to_string(), s.to_string()]),
+            1 => (1u32..15).prop_map(|s| vec!["PX".to_string(), (s * 1000).to_string()]),
+            1 => Just(sv(&["KEEPTTL"])),
+            w_invalid => prop_oneof![Just(sv(&["EX", "0"])), Just(sv(&["EX", "-1"])), Just(sv(&["PX", "0"]))],
+        ],
+        prop::bool::weighted(0.15),
+    );
+    let arms: Vec<(u32, BoxedStrategy<Vec<String>>)> = vec![
+        // plain SET
+        (10, (str_key(profile), val_s(profile)).prop_map(|(k, v)| vec!["SET".into(), k, v]).boxed()),
+        // SET with options
+        (w_opts, (str_key(profile), val_s(profile), set_opts).prop_map(|(k, v, (cond, exp, get))| {
+            let mut a = vec!["SET".to_string(), k, v];
+            if !cond.is_empty() {
+                a.push(cond.to_string());
+            }
+            a.extend(exp);
+            if get {
+                a.push("GET".into());
+            }
+            a
+        }).boxed()),
+        (4, any_key(profile).prop_map(|k| vec!["DEL".into(), k]).boxed()),
+        (1, (any_key(profile), any_key(profile)).prop_map(|(k, k2)| vec!["DEL".into(), k, k2]).boxed()),
+        (2, str_key(profile).prop_map(|k| vec!["INCR".into(), k]).boxed()),
+        (1, str_key(profile).prop_map(|k| vec!["DECR".into(), k]).boxed()),
+        (1, (str_key(profile), prop_oneof![3 => Just("7"), 3 => Just("-2"), w_big => Just("9223372036854775807")])
+            .prop_map(|(k, n)| vec!["INCRBY".into(), k, n.to_string()]).boxed()),
+        (1, (str_key(profile), Just("3")).prop_map(|(k, n)| vec!["DECRBY".into(), k, n.to_string()]).boxed()),
+        (2, (str_key(profile), val_s(profile)).prop_map(|(k, v)| vec!["APPEND".into(), k, v]).boxed()),
+        (w_getset, (str_key(profile), val_s(profile)).prop_map(|(k, v)| vec!["GETSET".into(), k, v]).boxed()),
+        (6, (hash_key(profile), field_s(), val_s(profile)).prop_map(|(k, f, v)| vec!["HSET".into(), k, f, v]).boxed()),
+        (2, (hash_key(profile), field_s(), val_s(profile), field_s(), val_s(profile))
+            .prop_map(|(k, f, v, f2, v2)| vec!["HSET".into(), k, f, v, f2, v2]).boxed()),
+        (3, (hash_key(profile), field_s()).prop_map(|(k, f)| vec!["HDEL".into(), k, f]).boxed()),
+        (1, (hash_key(profile), field_s(), field_s()).prop_map(|(k, f, f2)| vec!["HDEL".into(), k, f, f2]).boxed()),
+        (2, (hash_key(profile), field_s(), prop_oneof![Just("1"), Just("-4")])
+            .prop_map(|(k, f, n)| vec!["HINCRBY".into(), k, f, n.to_string()]).boxed()),
+    ];
+    proptest::strategy::Union::new_weighted(arms.into_iter().filter(|(w, _)| *w > 0).collect())
+    .boxed()
+}
+
+fn step_strategy(profile: u8, lossy: bool, ticks: bool) -> impl Strategy<Value = Step> {
+    let w_loss = if lossy { 2 } else { 0 };
+    let w_tick = if ticks { 2 } else { 0 };
+    prop_oneof![
+        12 => (0u8..8, cmd_strategy(profile)).prop_map(|(node, argv)| Step::Cmd { node, argv }),
+        10 => any::<u16>().prop_map(|idx| Step::Deliver { idx }),
+        // deliveries biased to the oldest message (FIFO-ish stretches)
+        4 => Just(Step::Deliver { idx: 0 }),
+        2 => any::<u16>().prop_map(|idx| Step::Dup { idx }),
+        w_loss => any::<u16>().prop_map(|idx| Step::Drop { idx }),
+        w_loss => (0u8..8, 0u8..8).prop_map(|(a, b)| Step::Partition { a, b }),
+        w_loss => Just(Step::Heal),
+        w_tick => prop_oneof![
+            3 => 1u32..3000,
+            2 => 3000u32..21000,
+            1 => Just(1000u32),
+        ].prop_map(|ms| Step::Tick { ms }),
+        // keeps the union non-degenerate when both optional classes are off
+        1 => Just(Step::Deliver { idx: 65535 }),
+    ]
+}
+
+fn case_strategy(thorough: bool) -> impl Strategy<Value = Case> {
+    let max_nodes: u8 = if thorough { 5 } else { 4 };
+    let max_steps = if thorough { 80 } else { 40 };
+    (2u8..=max_nodes, 0u8..3, any::<bool>(), any::<bool>(), any::<bool>()).prop_flat_map(
+        move |(nodes, profile, lossy, ticks, redeliver_lost)| {
+            proptest::collection::vec(step_strategy(profile, lossy, ticks), 4..max_steps)
+                .prop_map(move |steps| Case { nodes, steps, redeliver_lost })
+        },
+    )
+}
+
+// ---------------------------------------------------------------------------------------
+// observation
+// ---------------------------------------------------------------------------------------
+
+#[derive(Clone, Debug, PartialEq, Eq)]
+enum Body {
+    None,
+    Str(String),
+    Hash(Vec<(String, String)>),
+    /// something the projection cannot express (kept verbatim for the message)
+    Other(String),
+}
+
+impl Body {
+    fn show(&self) -> String {
+        match self {
+            Body::None => "(absent)".into(),
+            Body::Str(s) => format!("string \"{}\"", s),
+            Body::Hash(h) => format!(
+                "hash {{{}}}",
+                h.iter().map(|(f, v)| format!("{}={}", f, v)).collect::<Vec<_>>().join(", ")
+            ),
+            Body::Other(s) => format!("?{}", s),
+        }
+    }
+}
+
+#[derive(Clone, Debug, PartialEq, Eq)]
+struct Obs {
+    body: Body,
+    pttl: i64,
+}
+
+fn norm(r: Reply) -> Reply {
+    match r.error_code() {
+        Some(c) => Reply::Error(c.into_bytes()),
+        None => r,
+    }
+}
+
+async fn run(node: &ReplicatedShardHandle, argv: &[&str]) -> Result<(Reply, Option<ReplicationDelta>), String> {
+    let a: Vec<Vec<u8>> = argv.iter().map(|s| s.as_bytes().to_vec()).collect();
+    let cmd = parse_zc(&a).map_err(|e| format!("harness: {:?} does not parse: {}", argv, e))?;
+    let (r, d) = node.execute(cmd).await;
+    Ok((Reply::from_resp(&r), d))
+}
+
+/// What a client reads for a key: TYPE, GET, HGETALL (as a multiset of pairs), EXISTS, PTTL,
+/// cross-checked into one body (an inconsistent combination is reported as such).
+async fn observe(node: &ReplicatedShardHandle, key: &str) -> Result<Obs, String> {
+    let ty = run(node, &["TYPE", key]).await?.0;
+    let get = norm(run(node, &["GET", key]).await?.0);
+    let hga = norm(run(node, &["HGETALL", key]).await?.0.sorted_pairs());
+    let exists = run(node, &["EXISTS", key]).await?.0;
+    let pttl = run(node, &["PTTL", key]).await?.0.as_int().unwrap_or(i64::MIN);
+    let wrong = Reply::Error(b"WRONGTYPE".to_vec());
+    let ty_s = match &ty {
+        Reply::Simple(s) => String::from_utf8_lossy(s).into_owned(),
+        o => o.show(),
+    };
+    let body = match (ty_s.as_str(), &get, &hga, &exists) {
+        ("none", Reply::Nil, Reply::Array(a), Reply::Int(0)) if a.is_empty() => Body::None,
+        ("string", Reply::Bulk(b), h, Reply::Int(1)) if *h == wrong => Body::Str(vcore::show(b)),
+        ("hash", g, Reply::Array(a), Reply::Int(1)) if *g == wrong && !a.is_empty() && a.len() % 2 == 0 => {
+            let mut pairs = Vec::new();
+            for c in a.chunks(2) {
+                match (&c[0], &c[1]) {
+                    (Reply::Bulk(f), Reply::Bulk(v)) => pairs.push((vcore::show(f), vcore::show(v))),
+                    _ => return Ok(Obs { body: Body::Other(format!("HGETALL {}", hga.show())), pttl }),
+                }
+            }
+            pairs.sort();
+            Body::Hash(pairs)
+        }
+        _ => Body::Other(format!(
+            "TYPE {} GET {} HGETALL {} EXISTS {}",
+            ty_s,
+            get.show(),
+            hga.show(),
+            exists.show()
+        )),
+    };
+    Ok(Obs { body, pttl })
+}
+
+/// The node's own replication state for a key, through `vcore::proj::client_view`.
+fn state_view(snap: &HashMap<String, ReplicatedValue>, key: &str) -> (Body, Option<u64>) {
+    let Some(v) = snap.get(key) else {
+        return (Body::None, None);
+    };
+    let view = vcore::proj::client_view(v);
+    let body = match view["body"]["type"].as_str() {
+        Some("none") => Body::None,
+        Some("string") => Body::Str(view["body"]["value"].as_str().unwrap_or("").to_string()),
+        Some("hash") => {
+            let mut pairs: Vec<(String, String)> = view["body"]["fields"]
+                .as_array()
+                .map(|a| {
+                    a.iter()
+                        .map(|p| {
+                            (
+                                vcore::show(p[0].as_str().unwrap_or("").as_bytes()),
+                                p[1].as_str().unwrap_or("").to_string(),
+                            )
+                        })
+                        .collect()
+                })
+                .unwrap_or_default();
+            pairs.sort();
+            Body::Hash(pairs)
+        }
+        _ => Body::Other(view["body"].to_string()),
+    };
+    (body, v.expiry_ms)
+}
+
+fn show_rv(v: &ReplicatedValue) -> String {
+    let inner = match &v.crdt {
+        CrdtValue::Lww(l) => format!(
+            "lww {}@({},r{})",
+            l.get().map(|s| format!("\"{}\"", vcore::show(s.as_bytes()))).unwrap_or_else(|| if l.tombstone { "<tomb>".into() } else { "<unset>".into() }),
+            l.timestamp.time,
+            l.timestamp.replica_id.0
+        ),
+        CrdtValue::Hash(h) => {
+            let mut f: Vec<String> = h
+                .iter()
+                .map(|(k, l)| {
+                    format!(
+                        "{}={}@({},r{})",
+                        k,
+                        l.get().map(|s| vcore::show(s.as_bytes())).unwrap_or_else(|| "<tomb>".into()),
+                        l.timestamp.time,
+                        l.timestamp.replica_id.0
+                    )
+                })
+                .collect();
+            f.sort();
+            format!("hash {{{}}}", f.join(" "))
+        }
+        other => other.type_name().to_string(),
+    };
+    format!("{} outer=({},r{}) expiry_ms={:?}", inner, v.timestamp.time, v.timestamp.replica_id.0, v.expiry_ms)
+}
+
+// ---------------------------------------------------------------------------------------
+// the run
+// ---------------------------------------------------------------------------------------
+
+#[derive(Clone)]
+struct Msg {
+    id: usize,
+    from: usize,
+    to: usize,
+    delta: ReplicationDelta,
+}
+
+#[derive(Default, Clone)]
+struct KeyInfo {
+    /// only plain `SET k v` and `DEL` were ever issued for this key (and none failed)
+    only_plain: bool,
+    /// register stamps observed on deltas of this key -> value (None = tombstone)
+    writes: Vec<(Stamp, Option<String>)>,
+    writers: BTreeSet<usize>,
+    delta_cmds: u32,
+    t1: bool,
+    t2: bool,
+    /// the delta of such a no-op / failed command carried an expiry
+    t1_exp: bool,
+    t2_exp: bool,
+    t3: bool,
+    t6: bool,
+    /// deltas of both CRDT kinds (register and hash) were emitted for this key
+    saw_lww: bool,
+    saw_hash: bool,
+    /// a valid expiring write (EX/PX) or KEEPTTL was issued for this key
+    te: bool,
+    /// a valid PX write whose duration is not a whole number of seconds was issued
+    px_sub: bool,
+    /// ... and one of less than a second (peers reject the resulting SETEX 0 and keep whatever they had)
+    px_zero: bool,
+}
+
+#[derive(Clone, Copy, PartialEq, Eq, Debug)]
+enum Kind {
+    Body,
+    PresenceOnly,
+    Ttl,
+    Winner,
+}
+
+struct Net<'a, 'b> {
+    ctx: &'a mut CaseCtx<'b>,
+    nodes: Vec<ReplicatedShardHandle>,
+    inflight: Vec<Msg>,
+    lost: Vec<Msg>,
+    lost_for_good: bool,
+    cut: BTreeSet<(usize, usize)>,
+    now_ms: u64,
+    time_advanced: bool,
+    max_ttl_ms: u64,
+    next_id: usize,
+    keys: BTreeMap<String, KeyInfo>,
+    trace: Vec<String>,
+    faulty_delivery: bool,
+    tolerated_at: BTreeSet<(String, String, &'static str)>,
+    /// presence per node at the last verdict (D only judges what eviction changed)
+    last_presence: BTreeMap<String, Vec<bool>>,
+}
+
+impl<'a, 'b> Net<'a, 'b> {
+    fn fail(&self, msg: String) -> String {
+        let n = self.trace.len();
+        let from = n.saturating_sub(60);
+        format!("{}\n  program so far:\n    {}", msg, self.trace[from..].join("\n    "))
+    }
+
+    fn key(&mut self, k: &str) -> &mut KeyInfo {
+        self.keys.entry(k.to_string()).or_insert_with(|| KeyInfo { only_plain: true, ..Default::default() })
+    }
+
+    async fn snapshot(&self, i: usize) -> HashMap<String, ReplicatedValue> {
+        self.nodes[i].get_snapshot().await
+    }
+
+    /// KF-C06-06 trigger, observed: after a delta was applied at node `i`, its replication
+    /// state holds a hash (live or fully tombstoned fields) for the key while its executor
+    /// holds a string.
+    async fn note_hash_over_string(&mut self, i: usize, key: &str) -> Result<(), String> {
+        let snap = self.snapshot(i).await;
+        if snap.get(key).map(|v| v.is_hash()).unwrap_or(false) {
+            let ty = run(&self.nodes[i], &["TYPE", key]).await?.0;
+            if ty == Reply::Simple(b"string".to_vec()) && !self.key(key).t6 {
+                self.key(key).t6 = true;
+                self.trace.push(format!("      (n{}: replication state of {} is a hash, the executor still holds a string)", i + 1, key));
+            }
+        }
+        Ok(())
+    }
+
+    async fn deliver(&mut self, m: Msg, why: &str) -> Result<(), String> {
+        let link = (m.from.min(m.to), m.from.max(m.to));
+        if self.cut.contains(&link) {
+            self.trace.push(format!("{} #{} n{}->n{} lost (link cut)", why, m.id, m.from + 1, m.to + 1));
+            self.faulty_delivery = true;
+            self.lost.push(m);
+            return Ok(());
+        }
+        self.trace.push(format!(
+            "{} #{} n{}->n{} {}: {}",
+            why,
+            m.id,
+            m.from + 1,
+            m.to + 1,
+            m.delta.key,
+            show_rv(&m.delta.value)
+        ));
+        self.nodes[m.to].apply_remote_delta(m.delta.clone());
+        self.note_hash_over_string(m.to, &m.delta.key).await
+    }
+
+    async fn command(&mut self, node: usize, argv: &[String]) -> Result<(), String> {
+        let args: Vec<&str> = argv.iter().map(|s| s.as_str()).collect();
+        let name = args[0].to_ascii_uppercase();
+        let cmd_keys: Vec<String> = if name == "DEL" {
+            args[1..].iter().map(|s| s.to_string()).collect()
+        } else {
+            vec![args[1].to_string()]
+        };
+        // what the node serves for the keys before the command (TYPE only; used to recognise
+        // the no-op / wrong-type situations of the listed findings by observation)
+        let mut pre_type: BTreeMap<String, String> = BTreeMap::new();
+        for k in &cmd_keys {
+            let t = run(&self.nodes[node], &["TYPE", k]).await?.0;
+            pre_type.insert(
+                k.clone(),
+                match t {
+                    Reply::Simple(s) => String::from_utf8_lossy(&s).into_owned(),
+                    o => o.show(),
+                },
+            );
+        }
+        let (reply, returned) = run(&self.nodes[node], &args).await?;
+        let mut deltas = self.nodes[node].drain_pending_deltas().await;
+        if let Some(r) = returned {
+            let have = deltas.iter().any(|d| {
+                d.key == r.key && vcore::proj::peer_view(&d.value) == vcore::proj::peer_view(&r.value)
+            });
+            if !have {
+                deltas.push(r);
+            }
+        }
+        self.trace.push(format!(
+            "n{} {} -> {}{}",
+            node + 1,
+            argv.join(" "),
+            reply.show(),
+            if deltas.is_empty() {
+                "  (no delta)".to_string()
+            } else {
+                format!(
+                    "  delta {}",
+                    deltas.iter().map(|d| format!("{}: {}", d.key, show_rv(&d.value))).collect::<Vec<_>>().join("; ")
+                )
+            }
+        ));
+
+        // ---- classification of the command for the bookkeeping
+        let is_plain_set = name == "SET" && args.len() == 3;
+        let has = |o: &str| args.iter().skip(3).any(|a| a.eq_ignore_ascii_case(o));
+        let opt_val = |o: &str| -> Option<i64> {
+            args.iter().position(|a| a.eq_ignore_ascii_case(o)).and_then(|p| args.get(p + 1)).and_then(|v| v.parse().ok())
+        };
+        for k in &cmd_keys {
+            let ki = self.key(k);
+            if !(is_plain_set || name == "DEL") || reply.is_error() {
+                ki.only_plain = false;
+            }
+        }
+        if name == "SET" && !reply.is_error() {
+            let ttl = match (opt_val("EX"), opt_val("PX")) {
+                (Some(s), _) if s > 0 => Some(s as u64 * 1000),
+                (_, Some(ms)) if ms > 0 => Some(ms as u64),
+                _ => None,
+            };
+            if let Some(t) = ttl {
+                self.max_ttl_ms = self.max_ttl_ms.max(t);
+                self.key(&cmd_keys[0]).te = true;
+                if t % 1000 != 0 {
+                    self.key(&cmd_keys[0]).px_sub = true;
+                }
+                if t < 1000 {
+                    self.key(&cmd_keys[0]).px_zero = true;
+                }
+                self.ctx.label("cmd:set_with_ttl");
+            }
+            if has("KEEPTTL") {
+                self.key(&cmd_keys[0]).te = true;
+            }
+        }
+        // KF-C06-02 trigger, observed: error reply, yet a delta was emitted
+        if reply.is_error() && !deltas.is_empty() {
+            for d in &deltas {
+                self.key(&d.key).t2 = true;
+                if d.value.expiry_ms.is_some() {
+                    self.key(&d.key).t2_exp = true;
+                }
+            }
+            self.ctx.label("trigger:failed_command_emitted_delta");
+        }
+        // KF-C06-01 trigger, observed: conditional SET that did not write (NX on a key the node
+        // serves / XX on a key it does not serve), yet a delta was emitted
+        if name == "SET" && !reply.is_error() && !deltas.is_empty() {
+            let existed = pre_type[&cmd_keys[0]] != "none";
+            if (has("NX") && existed) || (has("XX") && !existed) {
+                self.key(&cmd_keys[0]).t1 = true;
+                if deltas.iter().any(|d| d.value.expiry_ms.is_some()) {
+                    self.key(&cmd_keys[0]).t1_exp = true;
+                }
+                self.ctx.label("trigger:conditional_noop_emitted_delta");
+            }
+        }
+        // KF-C06-03 trigger, observed: DEL removed a hash from the executor while the node's
+        // replication state still holds live fields for it
+        if name == "DEL" && !reply.is_error() {
+            let snap = self.snapshot(node).await;
+            for k in &cmd_keys {
+                if pre_type[k] == "hash" {
+                    if let (Body::Hash(_), _) = state_view(&snap, k) {
+                        self.key(k).t3 = true;
+                        self.ctx.label("trigger:del_of_hash_without_tombstone");
+                    }
+                }
+            }
+        }
+        self.ctx.label(&format!("cmd:{}", name.to_lowercase()));
+
+        // ---- stamps of register writes (for the LWW-winner oracle) and fan-out
+        for d in deltas {
+            {
+                let ki = self.key(&d.key);
+                ki.delta_cmds += 1;
+                ki.writers.insert(node);
+                match &d.value.crdt {
+                    CrdtValue::Lww(_) => ki.saw_lww = true,
+                    CrdtValue::Hash(_) => ki.saw_hash = true,
+                    _ => {}
+                }
+                if let CrdtValue::Lww(l) = &d.value.crdt {
+                    let v = l.get().map(|s| vcore::show(s.as_bytes()));
+                    let st = stamp(&l.timestamp);
+                    if !ki.writes.iter().any(|(s, x)| *s == st && *x == v) {
+                        ki.writes.push((st, v));
+                    }
+                }
+            }
+            for to in 0..self.nodes.len() {
+                if to != node {
+                    let id = self.next_id;
+                    self.next_id += 1;
+                    self.inflight.push(Msg { id, from: node, to, delta: d.clone() });
+                }
+            }
+        }
+        Ok(())
+    }
+
+    fn pick(&self, idx: u16) -> Option<usize> {
+        if self.inflight.is_empty() {
+            None
+        } else {
+            Some(((idx as usize) * self.inflight.len()) >> 16)
+        }
+    }
+
+    async fn step(&mut self, s: &Step) -> Result<(), String> {
+        let n = self.nodes.len();
+        match s {
+            Step::Cmd { node, argv } => {
+                if argv.len() < 2 {
+                    return Ok(());
+                }
+                self.command(*node as usize % n, argv).await?;
+            }
+            Step::Deliver { idx } => {
+                if let Some(i) = self.pick(*idx) {
+                    let m = self.inflight.remove(i);
+                    if self.inflight.iter().any(|o| o.from == m.from && o.to == m.to && o.id < m.id) {
+                        self.faulty_delivery = true;
+                        self.ctx.label("net:reordered");
+                    }
+                    self.deliver(m, "deliver").await?;
+                }
+            }
+            Step::Dup { idx } => {
+                if let Some(i) = self.pick(*idx) {
+                    let m = self.inflight[i].clone();
+                    self.trace.push(format!("duplicate #{} n{}->n{}", m.id, m.from + 1, m.to + 1));
+                    self.inflight.push(m);
+                    self.faulty_delivery = true;
+                    self.ctx.label("net:duplicated");
+                }
+            }
+            Step::Drop { idx } => {
+                if let Some(i) = self.pick(*idx) {
+                    let m = self.inflight.remove(i);
+                    self.trace.push(format!("drop #{} n{}->n{}", m.id, m.from + 1, m.to + 1));
+                    self.lost.push(m);
+                    self.faulty_delivery = true;
+                    self.ctx.label("net:dropped");
+                }
+            }
+            Step::Partition { a, b } => {
+                let (a, b) = (*a as usize % n, *b as usize % n);
+                if a != b {
+                    self.cut.insert((a.min(b), a.max(b)));
+                    self.trace.push(format!("partition n{} | n{}", a + 1, b + 1));
+                    self.ctx.label("net:partition");
+                }
+            }
+            Step::Heal => {
+                if !self.cut.is_empty() {
+                    self.cut.clear();
+                    self.trace.push("heal all links".into());
+                }
+            }
+            Step::Tick { ms } => {
+                self.now_ms += *ms as u64;
+                self.time_advanced = true;
+                self.trace.push(format!("clock -> {} ms (evict_expired on every node)", self.now_ms));
+                for h in &self.nodes {
+                    h.evict_expired(VirtualTime::from_millis(self.now_ms)).await;
+                }
+                self.ctx.label("tick");
+            }
+        }
+        Ok(())
+    }
+
+    /// Decide whether a discrepancy on `key` is exactly what an open finding explains.
+    fn judge(&mut self, stage: &str, key: &str, kind: Kind, detail: String) -> Result<(), String> {
+        let ki = self.keys.get(key).cloned().unwrap_or_default();
+        let mixed = ki.te && ki.delta_cmds >= 2;
+        let body_ids: Vec<&'static str> = [(ki.t1, KF1), (ki.t2, KF2), (ki.t3, KF3), (ki.t6, KF6), (ki.px_zero, KF7), (ki.saw_lww && ki.saw_hash, KF8)]
+            .iter()
+            .filter(|(t, _)| *t)
+            .map(|(_, id)| *id)
+            .collect();
+        let ttl_id: Option<&'static str> = if !ki.te {
+            None
+        } else if mixed {
+            Some(KF4)
+        } else if self.time_advanced {
+            Some(KF5)
+        } else {
+            None
+        };
+        let sub_id: Option<&'static str> = if ki.px_sub { Some(KF7) } else { None };
+        let mut candidates: Vec<&'static str> = match kind {
+            Kind::Body | Kind::Winner => body_ids,
+            Kind::PresenceOnly => {
+                let mut v = body_ids;
+                v.extend(sub_id);
+                if self.time_advanced {
+                    v.extend(ttl_id);
+                }
+                v
+            }
+            Kind::Ttl => [(ki.t1_exp, KF1), (ki.t2_exp, KF2)]
+                .iter()
+                .filter(|(t, _)| *t)
+                .map(|(_, id)| *id)
+                .chain(sub_id)
+                .chain(ttl_id)
+                .collect(),
+        };
+        candidates.retain(|id| self.ctx.finding_open(id));
+        if let Some(id) = candidates.first() {
+            if self.tolerated_at.insert((stage.to_string(), key.to_string(), id)) {
+                self.ctx.tolerate(id);
+                if std::env::var("C06_SHOW_TOLERATED").map(|v| v == *id).unwrap_or(false) {
+                    // development aid: look at what a matcher swallows (never affects a verdict)
+                    eprintln!("TOLERATED {} kind {:?}: {}\n", id, kind, self.fail(format!("[{}] key {}: {}", stage, key, detail)));
+                }
+            }
+            return Ok(());
+        }
+        Err(self.fail(format!("[{}] key {}: {}", stage, key, detail)))
+    }
+
+    /// Oracles A (agreement), B (served = own replication state), C (LWW winner).
+    async fn verdict(&mut self, stage: &str) -> Result<(), String> {
+        let keys: Vec<String> = self.keys.keys().cloned().collect();
+        let n = self.nodes.len();
+        let mut snaps = Vec::new();
+        for i in 0..n {
+            snaps.push(self.snapshot(i).await);
+        }
+        for key in keys {
+            let mut obs = Vec::new();
+            for i in 0..n {
+                obs.push(observe(&self.nodes[i], &key).await?);
+            }
+            let describe = |obs: &Vec<Obs>, snaps: &Vec<HashMap<String, ReplicatedValue>>| -> String {
+                (0..n)
+                    .map(|i| {
+                        format!(
+                            "\n      n{} serves {} pttl={} | replication state: {}",
+                            i + 1,
+                            obs[i].body.show(),
+                            obs[i].pttl,
+                            snaps[i].get(&key).map(show_rv).unwrap_or_else(|| "(no entry)".into())
+                        )
+                    })
+                    .collect::<String>()
+            };
+            self.last_presence.insert(key.clone(), obs.iter().map(|o| o.body != Body::None).collect());
+            for o in &obs {
+                if let Body::Other(s) = &o.body {
+                    return Err(self.fail(format!("[{}] key {}: a node's read replies are inconsistent with each other: {}", stage, key, s)));
+                }
+            }
+            // ---- B: served = own replication state
+            for i in 0..n {
+                let (sbody, sexp) = state_view(&snaps[i], &key);
+                if obs[i].body != sbody {
+                    let kind = if obs[i].body == Body::None { Kind::PresenceOnly } else { Kind::Body };
+                    self.judge(
+                        stage,
+                        &key,
+                        kind,
+                        format!(
+                            "n{} serves {} but its replication state says {}{}",
+                            i + 1,
+                            obs[i].body.show(),
+                            sbody.show(),
+                            describe(&obs, &snaps)
+                        ),
+                    )?;
+                } else if sbody != Body::None {
+                    let has_ttl = obs[i].pttl >= 0;
+                    if has_ttl != sexp.is_some() {
+                        self.judge(
+                            stage,
+                            &key,
+                            Kind::Ttl,
+                            format!(
+                                "n{} serves the key with pttl={} but its replication state says expiry_ms={:?}{}",
+                                i + 1,
+                                obs[i].pttl,
+                                sexp,
+                                describe(&obs, &snaps)
+                            ),
+                        )?;
+                    }
+                }
+            }
+            // ---- A: all nodes answer alike
+            let distinct: BTreeSet<String> = obs.iter().map(|o| o.body.show()).collect();
+            if distinct.len() > 1 {
+                let present: BTreeSet<String> =
+                    obs.iter().filter(|o| o.body != Body::None).map(|o| o.body.show()).collect();
+                let kind = if present.len() <= 1 { Kind::PresenceOnly } else { Kind::Body };
+                self.judge(stage, &key, kind, format!("replicas answer reads differently{}", describe(&obs, &snaps)))?;
+            } else if obs[0].body != Body::None {
+                let ttls: BTreeSet<i64> = obs.iter().map(|o| o.pttl).collect();
+                if ttls.len() > 1 {
+                    self.judge(
+                        stage,
+                        &key,
+                        Kind::Ttl,
+                        format!("replicas agree on the value but not on its remaining TTL{}", describe(&obs, &snaps)),
+                    )?;
+                }
+            }
+            // ---- C: plain SET/DEL keys: the write with the greatest stamp
+            let ki = self.keys[&key].clone();
+            if ki.only_plain && distinct.len() == 1 {
+                let want = match ki.writes.iter().max_by_key(|(s, _)| *s) {
+                    Some((_, Some(v))) => Body::Str(v.clone()),
+                    _ => Body::None,
+                };
+                self.ctx.label("oracle:lww_winner_checked");
+                if obs[0].body != want {
+                    let mut w = ki.writes.clone();
+                    w.sort();
+                    self.judge(
+                        stage,
+                        &key,
+                        Kind::Winner,
+                        format!(
+                            "all replicas serve {} but the write with the greatest stamp is {} (stamps seen on deltas: {:?}){}",
+                            obs[0].body.show(),
+                            want.show(),
+                            w,
+                            describe(&obs, &snaps)
+                        ),
+                    )?;
+                }
+            }
+        }
+        Ok(())
+    }
+
+    /// Two all-pairs rounds of full-state exchange built from get_snapshot().
+    async fn full_exchange(&mut self) -> Result<(), String> {
+        let n = self.nodes.len();
+        for round in 0..2 {
+            for i in 0..n {
+                let snap = self.snapshot(i).await;
+                let mut ks: Vec<&String> = snap.keys().collect();
+                ks.sort();
+                for j in 0..n {
+                    if i == j {
+                        continue;
+                    }
+                    for k in &ks {
+                        let d = ReplicationDelta::new((*k).clone(), snap[*k].clone(), ReplicaId::new(i as u64 + 1));
+                        self.nodes[j].apply_remote_delta(d);
+                        self.note_hash_over_string(j, k).await?;
+                    }
+                }
+            }
+            self.trace.push(format!("full-state exchange round {} done", round + 1));
+        }
+        Ok(())
+    }
+
+    /// D: after eviction beyond every TTL used, a key is absent everywhere or present everywhere.
+    async fn final_eviction(&mut self) -> Result<(), String> {
+        self.now_ms += self.max_ttl_ms + 1;
+        self.time_advanced = true;
+        self.trace.push(format!("clock -> {} ms (beyond every TTL used; evict_expired on every node)", self.now_ms));
+        for h in &self.nodes {
+            h.evict_expired(VirtualTime::from_millis(self.now_ms)).await;
+        }
+        let keys: Vec<String> = self.keys.keys().cloned().collect();
+        for key in keys {
+            let mut ex = Vec::new();
+            for h in &self.nodes {
+                ex.push(run(h, &["EXISTS", &key]).await?.0);
+            }
+            let before = self.last_presence.get(&key).cloned().unwrap_or_default();
+            let agreed_before = before.iter().all(|p| *p == before[0]);
+            if agreed_before && ex.iter().any(|e| *e != ex[0]) {
+                self.judge(
+                    "D",
+                    &key,
+                    Kind::Ttl,
+                    format!(
+                        "after eviction beyond every TTL used the key exists on some replicas only: EXISTS = {:?}",
+                        ex.iter().map(|e| e.show()).collect::<Vec<_>>()
+                    ),
+                )?;
+            }
+        }
+        Ok(())
+    }
+}
+
+fn check_case(case: &Case, ctx: &mut CaseCtx<'_>) -> Result<(), String> {
+    vcore::block_on(async {
+        let n = (case.nodes as usize).clamp(2, 6);
+        let nodes: Vec<ReplicatedShardHandle> = (0..n)
+            .map(|i| ReplicatedShardActor::spawn(ReplicaId::new(i as u64 + 1), ConsistencyLevel::Eventual, 0))
+            .collect();
+        let mut net = Net {
+            ctx,
+            nodes,
+            inflight: Vec::new(),
+            lost: Vec::new(),
+            lost_for_good: false,
+            cut: BTreeSet::new(),
+            now_ms: 0,
+            time_advanced: false,
+            max_ttl_ms: 0,
+            next_id: 0,
+            keys: BTreeMap::new(),
+            trace: Vec::new(),
+            faulty_delivery: false,
+            tolerated_at: BTreeSet::new(),
+            last_presence: BTreeMap::new(),
+        };
+        net.ctx.label(&format!("nodes:{}", n));
+        for s in &case.steps {
+            net.step(s).await?;
+        }
+        // ---- delivery of everything still in flight; lost deltas are sent again if asked
+        net.cut.clear();
+        net.trace.push("---- heal; deliver everything in flight".into());
+        let rest: Vec<Msg> = std::mem::take(&mut net.inflight);
+        for m in rest {
+            net.deliver(m, "deliver").await?;
+        }
+        if !net.lost.is_empty() {
+            if case.redeliver_lost {
+                let lost: Vec<Msg> = std::mem::take(&mut net.lost);
+                for m in lost {
+                    net.deliver(m, "redeliver").await?;
+                }
+                net.ctx.label("net:lost_then_redelivered");
+            } else {
+                net.lost_for_good = true;
+            }
+        }
+        let multi_writer = net.keys.values().any(|k| k.writers.len() >= 2);
+        if multi_writer && net.faulty_delivery {
+            let fp = serde_json::to_string(case).unwrap_or_default();
+            net.ctx.nontrivial(&fp);
+        }
+        if !net.lost_for_good {
+            // every update has reached every replica by plain delivery
+            net.ctx.label("verdict:Q1_after_delivery");
+            net.verdict("Q1 (every delta delivered to every replica)").await?;
+        } else {
+            net.ctx.label("verdict:Q1_skipped_lost_deltas");
+        }
+        net.full_exchange().await?;
+        net.verdict("Q2 (after two rounds of full-state exchange)").await?;
+        net.final_eviction().await?;
+        let tainted = net.keys.values().filter(|k| k.t1 || k.t2 || k.t3 || k.t6).count();
+        if tainted == 0 {
+            net.ctx.label("program:no_body_trigger_observed");
+        }
+        Ok(())
+    })
+}
+
+// ---------------------------------------------------------------------------------------
+// second tier: MultiNodeSimulation
+// ---------------------------------------------------------------------------------------
+
+#[derive(Clone, Debug, Serialize, Deserialize)]
+enum SimStep {
+    Set { node: u8, key: u8, val: u8 },
+    Del { node: u8, key: u8 },
+    Gossip { advance_ms: u16 },
+    Partition { a: u8, b: u8 },
+    Heal { a: u8, b: u8 },
+    Loss { percent: u8 },
+}
+
+#[derive(Clone, Debug, Serialize, Deserialize)]
+struct SimCase {
+    nodes: u8,
+    seed: u64,
+    steps: Vec<SimStep>,
+}
+
+fn sim_case_strategy(thorough: bool) -> impl Strategy<Value = SimCase> {
+    let max_steps = if thorough { 60 } else { 30 };
+    let step = prop_oneof![
+        8 => (0u8..8, 0u8..4, 0u8..8).prop_map(|(node, key, val)| SimStep::Set { node, key, val }),
+        3 => (0u8..8, 0u8..4).prop_map(|(node, key)| SimStep::Del { node, key }),
+        6 => prop_oneof![Just(0u16), Just(5u16), 1u16..40].prop_map(|advance_ms| SimStep::Gossip { advance_ms }),
+        1 => (0u8..8, 0u8..8).prop_map(|(a, b)| SimStep::Partition { a, b }),
+        1 => (0u8..8, 0u8..8).prop_map(|(a, b)| SimStep::Heal { a, b }),
+        1 => prop_oneof![Just(0u8), Just(30u8), Just(70u8)].prop_map(|percent| SimStep::Loss { percent }),
+    ];
+    (2u8..=5, any::<u64>(), proptest::collection::vec(step, 3..max_steps))
+        .prop_map(|(nodes, seed, steps)| SimCase { nodes, seed, steps })
+}
+
+fn check_sim(case: &SimCase, ctx: &mut CaseCtx<'_>) -> Result<(), String> {
+    use redis_sim::redis::{Command, SDS};
+    let n = (case.nodes as usize).clamp(2, 6);
+    let mut sim = MultiNodeSimulation::new(n, case.seed);
+    let mut trace: Vec<String> = Vec::new();
+    // per key: (stamp, value) of every write, read off the writer's state right after it
+    let mut writes: BTreeMap<String, Vec<(Stamp, Option<String>)>> = BTreeMap::new();
+    let mut writers: BTreeMap<String, BTreeSet<usize>> = BTreeMap::new();
+    let mut faults = false;
+    for (si, s) in case.steps.iter().enumerate() {
+        match s {
+            SimStep::Set { node, key, val } => {
+                let (node, key) = (*node as usize % n, KEYS[*key as usize % KEYS.len()]);
+                let v = format!("s{}_{}", si, val);
+                sim.execute(0, node, Command::set(key.to_string(), SDS::from_str(&v)));
+                let st = sim.nodes[node]
+                    .replica_state
+                    .get_replicated(key)
+                    .and_then(|rv| rv.lww().map(|l| stamp(&l.timestamp)))
+                    .unwrap_or((0, 0));
+                trace.push(format!("n{} SET {} {} -> stamp ({}, r{})", node + 1, key, v, st.0, st.1));
+                writes.entry(key.to_string()).or_default().push((st, Some(v)));
+                writers.entry(key.to_string()).or_default().insert(node);
+            }
+            SimStep::Del { node, key } => {
+                let (node, key) = (*node as usize % n, KEYS[*key as usize % KEYS.len()]);
+                let before = sim.nodes[node].replica_state.get_replicated(key).and_then(|rv| rv.lww().map(|l| stamp(&l.timestamp)));
+                sim.execute(0, node, Command::del(key.to_string()));
+                let after = sim.nodes[node].replica_state.get_replicated(key).and_then(|rv| rv.lww().map(|l| stamp(&l.timestamp)));
+                trace.push(format!("n{} DEL {} -> stamp {:?}", node + 1, key, after));
+                if let Some(st) = after {
+                    if before != after {
+                        writes.entry(key.to_string()).or_default().push((st, None));
+                        writers.entry(key.to_string()).or_default().insert(node);
+                    }
+                }
+            }
+            SimStep::Gossip { advance_ms } => {
+                sim.advance_time_ms(*advance_ms as u64);
+                sim.gossip_round();
+                trace.push(format!("advance {} ms; gossip round ({} messages queued)", advance_ms, sim.message_queue.len()));
+            }
+            SimStep::Partition { a, b } => {
+                let (a, b) = (*a as usize % n, *b as usize % n);
+                if a != b {
+                    sim.partition(a, b);
+                    faults = true;
+                    ctx.label("sim:partition");
+                    trace.push(format!("partition n{} | n{}", a + 1, b + 1));
+                }
+            }
+            SimStep::Heal { a, b } => {
+                let (a, b) = (*a as usize % n, *b as usize % n);
+                if a != b {
+                    sim.heal_partition(a, b);
+                    trace.push(format!("heal n{} - n{} (anti-entropy syncs so far: {})", a + 1, b + 1, sim.anti_entropy_syncs));
+                }
+            }
+            SimStep::Loss { percent } => {
+                sim.packet_loss_rate = (*percent as f64 / 100.0).clamp(0.0, 1.0);
+                if *percent > 0 {
+                    faults = true;
+                    ctx.label("sim:loss");
+                }
+                trace.push(format!("packet loss {}%", percent));
+            }
+        }
+    }
+    // network idle: no loss, all links healed (the simulator runs its anti-entropy on heal),
+    // queue flushed by its own gossip rounds
+    sim.packet_loss_rate = 0.0;
+    let cuts: Vec<(usize, usize)> = sim.partitions.iter().cloned().collect();
+    for (a, b) in cuts {
+        sim.heal_partition(a, b);
+    }
+    for _ in 0..6 {
+        sim.advance_time_ms(50);
+        sim.gossip_round();
+    }
+    if faults && writers.values().any(|w| w.len() >= 2) {
+        ctx.nontrivial(&serde_json::to_string(case).unwrap_or_default());
+    }
+    let fail = |msg: String| format!("{}\n  program:\n    {}", msg, trace.join("\n    "));
+    // S1 = the simulator's own delivery is over (nothing in flight). Served = state must hold at
+    // every node; where the replication states already agree everywhere (every update reached
+    // every replica by the simulator's own means) the full oracle applies.
+    // S2 = after two all-pairs rounds of full-state exchange (precondition true by construction).
+    for stage in ["S1 (network idle)", "S2 (after full-state exchange)"] {
+        if stage.starts_with("S2") {
+            for _round in 0..2 {
+                for i in 0..n {
+                    let mut all = sim.nodes[i].get_all_deltas();
+                    all.sort_by(|a, b| a.key.cmp(&b.key));
+                    for j in 0..n {
+                        if i != j {
+                            sim.nodes[j].apply_remote_deltas(all.clone());
+                        }
+                    }
+                }
+            }
+        } else if !sim.message_queue.is_empty() {
+            // cannot happen with all links healed and 300 ms elapsed; if it does, S1 is not
+            // a quiescent point and is skipped rather than judged
+            ctx.label("sim:S1_skipped_queue_not_empty");
+            continue;
+        }
+        for key in KEYS {
+            let served: Vec<Reply> = (0..n)
+                .map(|i| Reply::from_resp(&sim.nodes[i].executor.execute(&Command::Get(key.to_string()))))
+                .collect();
+            let state: Vec<Option<String>> = (0..n).map(|i| sim.nodes[i].get_replicated_value(key)).collect();
+            for i in 0..n {
+                let want = match &state[i] {
+                    Some(v) => Reply::bulk(v),
+                    None => Reply::Nil,
+                };
+                if served[i] != want {
+                    return Err(fail(format!(
+                        "[{}] key {}: n{} serves {} but its replication state says {:?}",
+                        stage,
+                        key,
+                        i + 1,
+                        served[i].show(),
+                        state[i]
+                    )));
+                }
+            }
+            let states_agree = state.iter().all(|s| *s == state[0]);
+            if stage.starts_with("S1") {
+                if !states_agree {
+                    ctx.label("sim:S1_states_not_yet_equal");
+                    continue;
+                }
+                ctx.label("sim:S1_full_oracle");
+            }
+            if served.iter().any(|r| *r != served[0]) {
+                return Err(fail(format!(
+                    "[{}] key {}: replicas answer GET differently: {:?}",
+                    stage,
+                    key,
+                    served.iter().map(|r| r.show()).collect::<Vec<_>>()
+                )));
+            }
+            if stage.starts_with("S2") {
+                let want = match writes.get(key).and_then(|w| w.iter().max_by_key(|(s, _)| *s)) {
+                    Some((_, Some(v))) => Reply::bulk(v),
+                    _ => Reply::Nil,
+                };
+                if served[0] != want {
+                    return Err(fail(format!(
+                        "[{}] key {}: all replicas serve {} but the write with the greatest stamp is {} (writes: {:?})",
+                        stage,
+                        key,
+                        served[0].show(),
+                        want.show(),
+                        writes.get(key)
+                    )));
+                }
+            }
+        }
+    }
+    Ok(())
+}
+
+// ---------------------------------------------------------------------------------------
+// probes: minimal reproducers, run through the check itself with nothing tolerated
+// ---------------------------------------------------------------------------------------
+
+fn cmd(node: u8, parts: &[&str]) -> Step {
+    Step::Cmd { node, argv: sv(parts) }
+}
+
+fn reproducers() -> Vec<(&'static str, Case)> {
+    let two = |steps: Vec<Step>| Case { nodes: 2, steps, redeliver_lost: false };
+    vec![
+        (KF1, two(vec![cmd(0, &["SET", "ka", "v1"]), Step::Deliver { idx: 0 }, cmd(0, &["SET", "ka", "v2", "NX"])])),
+        (KF2, two(vec![cmd(0, &["SET", "ka", "v1"]), Step::Deliver { idx: 0 }, cmd(0, &["SET", "ka", "v2", "EX", "0"])])),
+        (KF3, two(vec![cmd(0, &["HSET", "ka", "f1", "v1"]), Step::Deliver { idx: 0 }, cmd(0, &["DEL", "ka"])])),
+        (
+            KF4,
+            two(vec![
+                cmd(0, &["SET", "ka", "v1", "EX", "10"]),
+                Step::Deliver { idx: 0 },
+                cmd(0, &["SET", "ka", "v2"]),
+                Step::Deliver { idx: 0 },
+            ]),
+        ),
+        (
+            KF5,
+            two(vec![
+                cmd(0, &["SET", "ka", "v1", "EX", "10"]),
+                Step::Dup { idx: 0 },
+                Step::Deliver { idx: 0 },
+                Step::Tick { ms: 5000 },
+                Step::Deliver { idx: 0 },
+            ]),
+        ),
+        (
+            KF6,
+            two(vec![cmd(0, &["SET", "ka", "v1"]), cmd(1, &["HSET", "ka", "f1", "v2"]), Step::Deliver { idx: 0 }, Step::Deliver { idx: 0 }]),
+        ),
+        (KF7, two(vec![cmd(0, &["SET", "ka", "v1", "PX", "900"]), Step::Deliver { idx: 0 }])),
+        (
+            KF8,
+            two(vec![
+                cmd(0, &["HSET", "ka", "f3", "v1"]),
+                cmd(1, &["SET", "ka", "v1"]),
+                cmd(1, &["DEL", "ka"]),
+                cmd(1, &["HSET", "ka", "f1", "v2"]),
+                // n1's old hash reaches n2 after n2 re-created the key; n2's three deltas reach n1 in order
+                Step::Deliver { idx: 0 },
+                Step::Deliver { idx: 0 },
+                Step::Deliver { idx: 0 },
+                Step::Deliver { idx: 0 },
+            ]),
+        ),
+    ]
+}
+
 fn main() {
-    eprintln!("C06: not built yet");
-    std::process::exit(2);
+    let args = vcore::parse_args();
+    if std::env::var("C06_DEBUG_GEN").is_ok() {
+        // generator smoke test with the default panic printer
+        let mut runner = proptest::test_runner::TestRunner::deterministic();
+        for _ in 0..200 {
+            let _ = case_strategy(true).new_tree(&mut runner).map(|t| proptest::strategy::ValueTree::current(&t));
+        }
+        eprintln!("generator ok");
+        return;
+    }
+    let s = Session::new(
+        "C06",
+        Level::Exploration,
+        "actor_programs: 2-4 (thorough 5) production ReplicatedShardActors, programs of 4..40 (thorough 80) steps: client commands \
+         (SET plain/NX/XX/EX/PX/GET/KEEPTTL/invalid expiry, DEL single/multi, INCR/DECR/INCRBY/DECRBY, APPEND, GETSET, HSET/HDEL/HINCRBY on 4 shared keys, \
+         so type flips happen) at chosen nodes, interleaved with deliver-any/duplicate/drop/partition/heal on the multiset of in-flight deltas and clock ticks; \
+         sim_programs: MultiNodeSimulation with SET/DEL programs, partitions, loss, healing. non-trivial = at least two nodes wrote the same key and at least one \
+         delivery was reordered, duplicated, dropped or cut (actor tier) / a partition or loss was active (simulator tier); distinct by whole case",
+        &args,
+    );
+    s.assume("every node's executor clock is the one the harness sets through evict_expired(now) on all nodes at each tick (the actor has no other clock source); all nodes therefore share one clock");
+    s.assume("quiescence: Q1 = every delta returned by execute / left in drain_pending_deltas has been applied at every other node at least once (only judged when no delta was lost for good); Q2 = additionally two all-pairs rounds of full-state exchange built from get_snapshot()");
+    s.assume("served = replication state is judged through vcore::proj::client_view of the node's own get_snapshot() entry; expiry is compared as 'has a TTL' <-> expiry_ms is Some (the state holds a duration, not a deadline)");
+    s.describe_check(
+        "actor_programs",
+        "oracles at Q1/Q2: A all nodes give identical TYPE/GET/HGETALL(multiset)/EXISTS/PTTL; B each equals the node's own client_view; C plain SET/DEL keys hold the write with the greatest observed stamp; D after eviction beyond every TTL, EXISTS agrees",
+    );
+    s.describe_check(
+        "sim_programs",
+        "MultiNodeSimulation driven by generated SET/DEL/gossip/partition/heal/loss steps, then healed, flushed and fully exchanged: GET equal on all nodes, equal to the node's replication state, equal to the write with the greatest stamp",
+    );
+
+    for (id, case) in reproducers() {
+        s.probe(id, json!({"case": case}), || s.strict_eval(|ctx| check_case(&case, ctx)).err());
+    }
+
+    let thorough = s.thorough();
+    s.run_cases("actor_programs", s.scale(50_000, 1_000_000), || case_strategy(thorough), check_case);
+    s.run_cases("sim_programs", s.scale(30_000, 400_000), || sim_case_strategy(thorough), check_sim);
+    s.finish();
 }
